@@ -6,7 +6,7 @@
    runs (hostile streams), not proved. *)
 From Coq Require Import ZArith List Bool.
 From Dmd Require Import Model.Bits Model.Types Model.Mem Model.Bus Model.Decode Model.Cpu.
-From Dmd Require Import Proofs.BusProofs Proofs.VideoProofs Proofs.DecodeProofs.
+From Dmd Require Import Proofs.BusProofs Proofs.VideoProofs Proofs.DecodeProofs Proofs.SafeBus Proofs.SafeCpu Proofs.SafeStep.
 Open Scope Z_scope.
 
 (* every bus access the host API or the CPU can request -- any address, any width, reads, writes, instruction
@@ -45,3 +45,48 @@ Theorem C12_video_fetch_never_panics :
     bus_video_ram b = Ok (mem_slice (ram b) (video_start b) (Z.to_nat 102400)) (with_dirty b false).
 Proof. exact frame_is_window. Qed.
 Print Assumptions C12_video_fetch_never_panics.
+
+(* THE step interface: from every well-formed machine state -- ANY register contents, ANY memory contents, ANY
+   DUART / mouse state, at ANY time -- one instruction through step_with_error completes or returns an error
+   value.  It never panics; the machine is well formed again afterwards (so the statement applies to the next
+   step), and no ROM byte changes.  Well formed (mwf): the four memories have their documented geometry and hold
+   byte values, the mouse coordinates are 16-bit, the 16 registers are 32-bit values -- which is what the Rust types
+   (Vec<u8>, u16, u32) guarantee of every state the implementation can be in.
+   OutOfFuel stands for "one of the three loops (MOVBLW, STREND, the block-move list) ran for more than 1,048,600
+   iterations": that it cannot happen is not proved here (see C12_partial below), it is checked by the runs. *)
+Theorem C12_step_with_error_never_panics :
+  forall now m, mwf m ->
+    match step_with_error now m with
+    | Ok _ m' | Err _ m' => mwf m' /\ rom (mbus m') = rom (mbus m)
+    | Panic => False
+    | OutOfFuel => True
+    end.
+Proof. exact step_with_error_never_panics. Qed.
+Print Assumptions C12_step_with_error_never_panics.
+
+(* any number of steps, continuing after every error *)
+Theorem C12_no_step_of_any_run_panics :
+  forall nows m, mwf m ->
+    match run_steps_err nows m with
+    | TGood m' => mwf m' /\ rom (mbus m') = rom (mbus m)
+    | TFuel => True
+    | TPanic => False
+    end.
+Proof. exact all_steps_never_panic. Qed.
+Print Assumptions C12_no_step_of_any_run_panics.
+
+(* the power-on machine is well formed: the theorems apply to every state reachable from it by steps *)
+Theorem C12_power_on_state_is_well_formed : forall now, mwf (mach_new now).
+Proof. exact mwf_new. Qed.
+Print Assumptions C12_power_on_state_is_well_formed.
+
+(* every dispatch arm, for every instruction the decoder can produce (32-bit constants) *)
+Theorem C12_every_dispatch_arm_is_safe :
+  forall ir m0 m, instr_ok ir -> st m0 m -> safe m0 (fun _ => True) (exec ir m).
+Proof. intros ir m0 m I S. now apply exec_safe. Qed.
+Print Assumptions C12_every_dispatch_arm_is_safe.
+
+Theorem C12_interrupt_entry_is_safe :
+  forall m0 v m, st m0 m -> 0 <= v -> safe m0 (fun _ => True) (on_interrupt v m).
+Proof. intros. now apply safe_on_interrupt. Qed.
+Print Assumptions C12_interrupt_entry_is_safe.
